@@ -159,7 +159,7 @@ func oneCase(c *vk.Ctx, i int, r *rand.Rand, p *sem.Prepared, cs cachedSrv) {
 			out := cs.s.ListObjects(drive.Req{Store: p.Store, Object: l.t, Relation: l.rel, User: l.u, Ctx: rctx})
 			c.Case(fmt.Sprintf("lo|%s|%s|n=%d", cs.name, ref.Shape(p.Ref.Rewrite(l.t, l.rel)), len(want)), len(want) > 0)
 			c.Count("judged_listobjects_answers", 1)
-			if out.Err != nil {
+			if sem.Hung(c, cs.name, out) || out.Err != nil {
 				continue
 			}
 			got := append([]string{}, out.Items...)
